@@ -261,5 +261,14 @@ def writeTo (c : Chunk) : Chunk × Bytes :=
     let out := c.unread
     ({ c with rpos := c.rpos + out.length }, out)
 
+/-- `WriteTo(w)` into a sink that accepts `k` more bytes and then fails (returning how many bytes of
+the piece it took, as the io.Writer contract demands): the count returned, the bytes the sink got and
+whether an error came back. The read cursor advances by exactly the count. -/
+def writeToLim (c : Chunk) (k : Nat) : Chunk × Bytes × Bool :=
+  if c.isEmpty then (c, [], false)
+  else
+    let out := c.unread.take k
+    ({ c with rpos := c.rpos + out.length }, out, decide (k < c.unread.length))
+
 end Chunk
 end XMT.Chunk
